@@ -257,6 +257,21 @@ inline void storage_sequences(const vf::opts &o, vf::report &R, uint64_t seqs) {
         case 1: pname = "reusable_storage"; st_sequence<monitored<cocls::reusable_storage>>(r, [] { return std::make_unique<monitored<cocls::reusable_storage>>(); }, 1, true, res, pname);
             if (res.err.empty()) res.err = st_no_heap_after_warmup<monitored<cocls::reusable_storage>>([] { return std::make_unique<monitored<cocls::reusable_storage>>(); }, (int)r.below(ST_NSIZES), pname);
             if (res.err.empty() && r.chance(1, 2)) res.err = st_raw_walk<monitored<cocls::reusable_storage>>(r, [] { return std::make_unique<monitored<cocls::reusable_storage>>(); }, pname, res.desc);
+            if (res.err.empty() && r.chance(1, 2)) { // storage objects are movable: the block travels with them, exactly one owner at any time
+                using RS = monitored<cocls::reusable_storage>;
+                c19_ctx C;
+                auto a = std::make_unique<RS>();
+                { cocls::future<int> f = st_start(*a, C, 1, nullptr, (int)r.below(ST_NSIZES)); if (f.wait() != 1) res.err = "wrong value"; }
+                auto b = std::make_unique<RS>(std::move(*a));                 // move construction
+                { cocls::future<int> f = st_start(*b, C, 2, nullptr, (int)r.below(ST_NSIZES)); if (f.wait() != 2) res.err = "wrong value"; }
+                { cocls::future<int> f = st_start(*a, C, 3, nullptr, (int)r.below(ST_NSIZES)); if (f.wait() != 3) res.err = "wrong value"; } // the moved-from object is usable again
+                if (r.chance(1, 2)) *a = std::move(*b); else *b = std::move(*a);  // move assignment over an object that owns a block
+                { cocls::future<int> f = st_start(*a, C, 4, nullptr, (int)r.below(ST_NSIZES)); if (f.wait() != 4) res.err = "wrong value"; }
+                { cocls::future<int> f = st_start(*b, C, 5, nullptr, (int)r.below(ST_NSIZES)); if (f.wait() != 5) res.err = "wrong value"; }
+                if (r.chance(1, 2)) a.reset(); else b.reset();
+                if (res.err.empty() && C.canary_bad.load()) res.err = "frame contents overwritten after the storage object was moved";
+                res.desc += " + move-construct / move-assign of the storage object";
+            }
             break;
         case 2: pname = "reusable_storage_mtsafe"; st_sequence<monitored<cocls::reusable_storage_mtsafe>>(r, [] { return std::make_unique<monitored<cocls::reusable_storage_mtsafe>>(); }, 3, true, res, pname);
             if (res.err.empty()) res.err = st_no_heap_after_warmup<monitored<cocls::reusable_storage_mtsafe>>([] { return std::make_unique<monitored<cocls::reusable_storage_mtsafe>>(); }, (int)r.below(ST_NSIZES), pname);
@@ -303,14 +318,19 @@ inline void storage_sequences(const vf::opts &o, vf::report &R, uint64_t seqs) {
             if (res.err.empty()) res.err = st_no_heap_after_warmup<monitored<cocls::placement_alloc>>([b] { return std::make_unique<monitored<cocls::placement_alloc>>(b); }, (int)r.below(3), pname);
             break;
         }
-        case 5: { // reusable_buffer_storage over a POD vector
+        case 5: { // reusable_buffer_storage over a POD vector (element width 8 and 1: the buffer is sized in elements, the frame in bytes)
             pname = "reusable_buffer_storage";
-            auto vec = std::make_unique<std::vector<uint64_t>>();
-            auto *vp = vec.get();
-            using RB = cocls::reusable_buffer_storage<std::vector<uint64_t>>;
-            st_sequence<monitored<RB>>(r, [vp] { return std::make_unique<monitored<RB>>(*vp); }, 1, true, res, pname);
-            if (res.err.empty()) res.err = st_no_heap_after_warmup<monitored<RB>>([vp] { return std::make_unique<monitored<RB>>(*vp); }, (int)r.below(ST_NSIZES), pname);
-            if (res.err.empty() && r.chance(1, 2)) res.err = st_raw_walk<monitored<RB>>(r, [vp] { return std::make_unique<monitored<RB>>(*vp); }, pname, res.desc);
+            auto run_rb = [&](auto tag) {
+                using Vec = typename decltype(tag)::type;
+                auto vec = std::make_unique<Vec>();
+                auto *vp = vec.get();
+                using RB = cocls::reusable_buffer_storage<Vec>;
+                st_sequence<monitored<RB>>(r, [vp] { return std::make_unique<monitored<RB>>(*vp); }, 1, true, res, pname);
+                if (res.err.empty()) res.err = st_no_heap_after_warmup<monitored<RB>>([vp] { return std::make_unique<monitored<RB>>(*vp); }, (int)r.below(ST_NSIZES), pname);
+                if (res.err.empty() && r.chance(1, 2)) res.err = st_raw_walk<monitored<RB>>(r, [vp] { return std::make_unique<monitored<RB>>(*vp); }, pname, res.desc);
+            };
+            struct t8 { using type = std::vector<uint64_t>; }; struct t1 { using type = std::vector<char>; };
+            if (r.chance(1, 2)) run_rb(t8{}); else { run_rb(t1{}); res.desc += " [vector<char>]"; }
             break;
         }
         default: { // storage with an attached extra object (ordinary and over-aligned type, frames of 8 mod 16 and 0 mod 16 bytes)
